@@ -36,12 +36,14 @@ theorem finish_str (env : Env) (st : StrSt) (fs : List Frame) :
     finish env ⟨.str st, fs⟩ = .error .EofWhileParsingString := rfl
 
 /-- **machine level.** All of `bs` consumed, `finish` fails, side conditions of the final state met:
-    `bs` minus the `k ≤ 3` unchecked digits of a `\u` group it ends in has a non-empty accepted continuation -/
-theorem eof_viable_core (env : Env) (bs : Bytes) (s : St) (c : Code) (hf : Feeds env init bs s)
+    `bs` minus the `k ≤ 3` unchecked digits of a `\u` group it ends in has a non-empty accepted continuation
+    (and is not accepted itself) -/
+theorem eof_viable_core_strong (env : Env) (bs : Bytes) (s : St) (c : Code) (hf : Feeds env init bs s)
     (hfin : finish env s = .error c) (hside : SideOK env s) (hexp : ExpOK env s) :
     ∃ k ys v, (k = 0 ∨ (0 < k ∧ k ≤ 3 ∧ c = .EofWhileParsingString ∧
         ∃ x, bs.take (bs.length - k) = x ++ [0x5c, 0x75])) ∧ k ≤ bs.length ∧ ys ≠ [] ∧
-      parseTop env (bs.take (bs.length - k) ++ ys) = .ok v := by
+      parseTop env (bs.take (bs.length - k) ++ ys) = .ok v ∧
+      ∀ v', parseTop env (bs.take (bs.length - k)) ≠ .ok v' := by
   obtain ⟨hle, hbu, s0, hq, hv⟩ := viable_prefix env bs s hf hside hexp
   have h4 := hexPending_lt (inv_of_feeds hf)
   -- the state after the viable prefix fails at end of input, so its completion is not empty
@@ -61,17 +63,30 @@ theorem eof_viable_core (env : Env) (bs : Bytes) (s : St) (c : Code) (hf : Feeds
       rw [finish_str] at hfin
       exact (Except.error.inj hfin).symm
   obtain ⟨c0, hc0, hcs⟩ := hs0
+  have hnot : ∀ v', parseTop env (bs.take (bs.length - hexPending s)) ≠ .ok v' := by
+    intro v' hv'
+    obtain ⟨s1, hf1, hfin1⟩ := (run_ok_iff env init 0 _ v').mp hv'
+    rw [feeds_det hf1 hq, hc0] at hfin1
+    cases hfin1
   obtain ⟨ys, s', v, hf', hfin'⟩ := hv
   have hne : ys ≠ [] := by
     rintro rfl
     simp only [Feeds, feedS, Except.ok.injEq] at hf'
     subst hf'
     rw [hc0] at hfin'; cases hfin'
-  refine ⟨hexPending s, ys, v, ?_, hle, hne, ?_⟩
+  refine ⟨hexPending s, ys, v, ?_, hle, hne, ?_, hnot⟩
   · by_cases h0 : hexPending s = 0
     · exact Or.inl h0
     · exact Or.inr ⟨by omega, by omega, hcs h0, hbu h0⟩
   · exact (run_ok_iff env init 0 _ v).mpr ⟨s', Feeds.append hq hf', hfin'⟩
+
+theorem eof_viable_core (env : Env) (bs : Bytes) (s : St) (c : Code) (hf : Feeds env init bs s)
+    (hfin : finish env s = .error c) (hside : SideOK env s) (hexp : ExpOK env s) :
+    ∃ k ys v, (k = 0 ∨ (0 < k ∧ k ≤ 3 ∧ c = .EofWhileParsingString ∧
+        ∃ x, bs.take (bs.length - k) = x ++ [0x5c, 0x75])) ∧ k ≤ bs.length ∧ ys ≠ [] ∧
+      parseTop env (bs.take (bs.length - k) ++ ys) = .ok v := by
+  obtain ⟨k, ys, v, h1, h2, h3, h4, _⟩ := eof_viable_core_strong env bs s c hf hfin hside hexp
+  exact ⟨k, ys, v, h1, h2, h3, h4⟩
 
 /-- an Eof-classified error of `parseTop` comes from `finish`, after all of the input was consumed -/
 theorem parse_eof_split (env : Env) (bs : Bytes) (c : Code) (idx : Nat)
